@@ -128,7 +128,7 @@ def r_close_order(ctx: Ctx, rule: str):
     sets = [e for e in ctx.effects(fields=["_closed"], kinds=["set", "clear", "assign", "maybe-set", "maybe-clear"]) if e.path.endswith("._closed")]
     rep.floor(rule, "writes of the closed event", len(sets), 2)
     for e in sets:
-        hosts = ctx.hosts(e.node.func)
+        hosts = ctx.hosts_of(e.node)
         if e.kind in ("set", "maybe-set"):
             rep.ob(rule, "the pool is closed only by gather_and_close", hosts <= {"gather_and_close"}, node=e.node)
         elif e.kind in ("clear", "maybe-clear"):
